@@ -26,6 +26,6 @@ Your task: produce ONE small source change to the automerge Rust library code (u
      (if nextest is unavailable use: cargo test --workspace --no-fail-fast --offline). If only a very small number of existing tests fail, try a different/narrower change - the requirement is that ALL existing tests pass.
   3. the breakage needs something specific to manifest: a particular interleaving or delivery order, a fault at a particular point, a multi-step sequence of operations, an unusual input, or two cooperating sites that each look fine alone. It must NOT be something that ordinary straightforward use would expose at once. Think of a plausible developer mistake (an off-by-one in an edge case, a missed branch, a wrong comparison in a tie-break, a forgotten state update on a rare path, an optimisation that is wrong in a corner case), not sabotage like `if x == 42`.
 
-Also write a demonstration: a new Rust integration test file at {wt}/rust/automerge/tests/seeded_demo.rs (self-contained, using only the public API of the automerge crate and dev-dependencies already available) which FAILS with your change applied and PASSES without it. Verify both directions yourself (use `git stash` / `git stash pop` on the source change, keeping the demo file, and run `cargo test --offline -p automerge --test seeded_demo`).
+Also write a demonstration: a new Rust integration test file at {wt}/rust/automerge/tests/seeded_demo.rs (self-contained, using only the public API of the automerge crate and dev-dependencies already available) which FAILS with your change applied and PASSES without it. Verify both directions yourself (do NOT use `git stash`: the stash is shared between worktrees; use `git diff > my.patch && git checkout -- rust` and afterwards `git apply my.patch`, keeping the demo file, and run `cargo test --offline -p automerge --test seeded_demo`).
 
 When finished, leave the worktree with your source change applied (uncommitted) plus the untracked demo test file, and write {wt}/SEED_REPORT.md containing: the files changed, what the bug is, exactly what is needed for it to manifest, the commands you ran and their results (existing suite pass counts, demo fails-with / passes-without). Keep builds economical: the machine is shared. Do not leave background processes running. Your final message should be a short summary of the same.""")
